@@ -185,8 +185,14 @@ pub fn instantiate(l: Letter, rng: &mut Rng, m: &Model) -> Op {
             })
         }
         Letter::SetUuid => {
+            // random, but also the nil UUID, all-ones, and regular patterns
             let mut u = [0u8; 16];
-            rng.fill(&mut u);
+            match rng.below(6) {
+                0 => {}
+                1 => u = [0xFF; 16],
+                2 => u.copy_from_slice(&rng.pattern_bytes(16)),
+                _ => rng.fill(&mut u),
+            }
             Op::SetUuid(u)
         }
         Letter::Garbage => Op::Process(corpus::gen_any(rng)),
